@@ -294,6 +294,9 @@ def run(chk, drv):
             return vals
         return [v for v in vals if not (-10**6 <= v < 10**6) or v % 16 == 0 or abs(v) < 2000 or v % 1000 in (0, 1, 999)]
     for us in sampled(tvals):
+        if len(chk.oracle_failures) >= 200:
+            break           # (the failure list is capped at 200: when everything fails there is nothing more to learn, and the
+                            #  per-case work of a failing case — reference parses, placements — made such runs take tens of minutes)
         off = rng.choice(offsets)
         lo = TS_MIN - off * 60 * 10**6
         hi = TS_MAX - off * 60 * 10**6
@@ -309,6 +312,8 @@ def run(chk, drv):
             chk.count("ts_subsecond_offset")
             ts_oracle(chk, us, off, sub)
     for us in sampled(dvals):
+        if len(chk.oracle_failures) >= 200:
+            break
         chk.case("d %d" % us, us != 0, {"duration_us": us})
         chk.count("dur_" + ("zero" if us == 0 else "neg" if us < 0 else "pos"))
         dur_oracle(chk, us)
@@ -331,15 +336,25 @@ def classify(failure, known):
 def search(chk):
     saved = chk.tier
     chk.tier = "thorough"
+    import time
+    # the thorough value sets have 10^6 elements each: the search gets a TIME budget (a changed tree that breaks a proof
+    # obligation without any failing input — e.g. another but equally valid text — made it run for tens of minutes)
+    budget = 150 if saved == "quick" else 600
     try:
+        t0 = time.time()
         for us in ts_values(chk):
             ts_oracle(chk, us, 0)
             if len(chk.oracle_failures) > 5:
                 return
+            if time.time() - t0 > budget:
+                break
+        t0 = time.time()
         for us in dur_values(chk):
             dur_oracle(chk, us)
             if len(chk.oracle_failures) > 5:
                 return
+            if time.time() - t0 > budget:
+                break
     finally:
         chk.tier = saved
 
